@@ -15,11 +15,13 @@ BASE = {"Peers": {"p1", "p2"}, "AddrsOf": "<- AddrsOne", "Fixed": "<- FixedNow"}
 def mc_runs(ctx, which):
     """exhaustive TLC runs; returns list of stats"""
     if ctx.quick():
-        runs = [("small", dict(BASE, Limits="<- LimSmall", MaxCid=3)), ("none", dict(BASE, Limits="<- LimNone", MaxCid=3))]
+        runs = [("small", dict(BASE, Limits="<- LimSmall", MaxCid=3)), ("none", dict(BASE, Limits="<- LimNone", MaxCid=3)),
+                ("asym", dict(BASE, Limits="<- LimAsym", MaxCid=3))]
     else:
         runs = [("small4", dict(BASE, Limits="<- LimSmall", MaxCid=4)),
                 ("mixed", dict(BASE, Limits="<- LimMixed", MaxCid=3, AddrsOf="<- AddrsDef")),
-                ("two", dict(BASE, Limits="<- LimTwo", MaxCid=3))]
+                ("two", dict(BASE, Limits="<- LimTwo", MaxCid=3)),
+                ("asym", dict(BASE, Limits="<- LimAsym", MaxCid=3))]
     out = []
     for name, consts in runs:
         r = tlc_mc(ctx, "ConnMgrMC.tla", write_cfg(ctx, "mc_%s.cfg" % name, consts, ["SPECIFICATION Spec"] + MC_INV),
@@ -35,7 +37,7 @@ def mc_runs(ctx, which):
 
 def generate(ctx):
     gl = ["SPECIFICATION Spec", "VIEW GenView", "ACTION_CONSTRAINT Emit", "CHECK_DEADLOCK FALSE"]
-    sets = [("LimSmall", 2), ("LimNone", 2), ("LimTwo", 2), ("LimLeak", 3), ("LimSmall", 3)] if ctx.quick() else [("LimSmall", 3), ("LimLeak", 3), ("LimNone", 2), ("LimTwo", 2)]
+    sets = [("LimSmall", 2), ("LimNone", 2), ("LimTwo", 2), ("LimAsym", 2), ("LimLeak", 3), ("LimSmall", 3), ("LimAsym", 3)] if ctx.quick() else [("LimSmall", 3), ("LimLeak", 3), ("LimAsym", 3), ("LimNone", 2), ("LimTwo", 2)]
     behs, stats = [], []
     import random
     for lim, mc in sets:
